@@ -2,8 +2,8 @@
 
 A behaviour-preserving clean-up often moves part of a function into a new private helper. The rules are written against named
 functions; a helper whose name no rule knows would hide the code it took with it. Before the facts are analysed, every function
-that (a) is not public, (b) is called from exactly one place in the whole crate (and referenced nowhere else), (c) is not
-recursive and (d) whose name does not occur anywhere in the rule sources (sa/rules/*.py) is spliced into its single caller at
+that (a) is not public, (b) is called from at most eight places in the whole crate (a helper that defines closures: exactly one), (c) is not
+recursive and (d) whose name does not occur anywhere in the rule sources (sa/rules/*.py) is spliced into each caller at
 the MIR level (locals and blocks renumbered, arguments assigned, returns turned into an assignment of the call's destination
 followed by a jump to the call's target). Closures defined in the helper are re-parented to the caller. The helper itself is
 removed from the function table. Helpers that a rule names, and every function that existed when the rules were written
@@ -137,6 +137,8 @@ def inline_unknown_helpers(fns, log=None):
     done = []
     for _round in range(3):
         cands = {}
+        refs = {}
+        spliced = {}
         for q, m in fns.items():
             body = m.get("body")
             if not body or m.get("kind") not in ("fn", "assoc_fn") or not str(m.get("vis", "")).startswith("Restricted"):
@@ -149,11 +151,14 @@ def inline_unknown_helpers(fns, log=None):
             nq, nr = alltext.count('"q": %s' % jq), alltext.count('"res": %s' % jq)
             both = alltext.count('"q": %s, "res": %s' % (jq, jq)) + alltext.count('"res": %s, "q": %s' % (jq, jq))
             n = nq + nr - both
-            if n != 1 or ('"q": %s' % jq) in text.get(q, "") or ('"res": %s' % jq) in text.get(q, ""):
-                continue  # not exactly one call site, or recursive
+            if n < 1 or n > 8 or ('"q": %s' % jq) in text.get(q, "") or ('"res": %s' % jq) in text.get(q, ""):
+                continue  # unreferenced, too widely used to be a clean-up helper, or recursive
             if len(body["blocks"]) > 150:
                 continue
+            if n > 1 and any(m2.get("parent") == q for m2 in fns.values()):
+                continue  # a helper with closures can be re-parented to one caller only
             cands[q] = m
+            refs[q] = n
         if not cands:
             break
         progressed = False
@@ -212,11 +217,13 @@ def inline_unknown_helpers(fns, log=None):
                 for q2, m2 in fns.items():
                     if m2.get("parent") == hq:
                         m2["parent"] = cq
-                del fns[hq]
-                del cands[hq]
+                spliced[hq] = spliced.get(hq, 0) + 1
                 done.append((hq, cq))
                 progressed = True
                 i += 1
+        for hq, k in spliced.items():
+            if k == refs.get(hq) and hq in fns:
+                del fns[hq]   # every reference was a call and has been replaced by the body
         if not progressed:
             break
         text = {q: json.dumps(m.get("body")) for q, m in fns.items() if m.get("body")}
